@@ -48,6 +48,21 @@ def variants(quick, rng):
     jobs.append({"what": "titratable-octapeptide pH 12", "text": gen.pdb_text([gen.peptide(mix)]),
                  "args": ["--ff=AMBER", "--titration-state-method=propka", "--with-ph=12"]})
     jobs.append({"what": "neutral-termini", "text": gen.pdb_text([gen.peptide(mix)]), "args": ["--ff=PARSE", "--neutraln", "--neutralc"]})
+    # protonated acids without any water in the structure, with optimisation switched off / on
+    acid = ["ALA", "ASH", "SER", "GLH", "ALA"]
+    for args in (["--ff=AMBER", "--noopt"], ["--ff=AMBER", "--noopt", "--nodebump"], ["--ff=AMBER"], ["--ff=PARSE", "--noopt"]):
+        jobs.append({"what": f"named acids, no water", "text": gen.pdb_text([gen.peptide(acid)]), "args": args})
+    jobs.append({"what": "acids at pH 1, no water, noopt", "text": gen.pdb_text([gen.peptide(["ALA", "ASP", "SER", "GLU", "ALA"])]),
+                 "args": ["--ff=PARSE", "--noopt", "--titration-state-method=propka", "--with-ph=1"]})
+    jobs.append({"what": "acids at pH 1, water dropped, noopt", "text": gen.pdb_text([gen.peptide(["ALA", "ASP", "SER", "GLU", "ALA"]) + gen.water((6, 14, 4), resseq=101)]),
+                 "args": ["--ff=AMBER", "--noopt", "--drop-water", "--titration-state-method=propka", "--with-ph=1"]})
+    # three / four peptides under one chain identifier, told apart only by their OXT atoms
+    parts = [gen.transform(gen.peptide(sq, chain="A", start=st), t=(0, 0, 30.0 * n))
+             for n, (sq, st) in enumerate(((["LYS", "ALA"], 1), (["GLY", "ASP", "SER"], 3), (["ARG", "ALA"], 6), (["TYR", "GLY", "HIS"], 8)))]
+    for npart in (3, 4):
+        merged = [a for part in parts[:npart] for a in part]
+        for args in (["--ff=AMBER"], ["--clean"], ["--ff=PARSE", "--noopt"]):
+            jobs.append({"what": f"{npart} peptides under one chain id", "text": gen.pdb_text([merged]), "args": args})
     # backbone gap inside one chain (no TER, numbering continues)
     full = gen.peptide(["ALA", "SER", "LYS", "GLY", "TRP", "ASP", "VAL", "LEU"])
     gap = [a for a in full if a["res_index"] not in (3, 4)]
